@@ -20,7 +20,9 @@ macro "tie_leaf" : tactic => `(tactic| first
   | (exfalso; omega)
   | (simp_all [Outcome.ofOption, id_pure]; done)
   | (simp_all [Outcome.ofOption, id_pure] <;> omega)
-  | (simp_all [Outcome.ofOption, id_pure, Bool.decide_and] <;> (first | omega | (constructor <;> intros <;> omega))))
+  | (simp_all [Outcome.ofOption, id_pure, Bool.decide_and] <;> (first | omega | (constructor <;> intros <;> omega)))
+  | (simp only [Outcome.ofOption, id_pure] at *; grind)
+  | grind)
 
 /-- the generic tie proof: case-split every `if`/`match` on both sides and close each case. It does not depend on the order of
 branches, on how conditions are spelled or on the names of locals, so a behaviour-preserving rewrite of the Go function keeps
